@@ -99,9 +99,16 @@ class Sel:
 
     def text(self):
         s = self.comps[0].text()
-        for r, c in zip(self.rels, self.comps[1:]):
-            s += REL_TEXT[r] + c.text()
+        for k, (r, c) in enumerate(zip(self.rels, self.comps[1:])):
+            if k == 0 and self.comps[0].is_empty():
+                # relative selector `> a`: rsass's AST is rel_of = (kind, empty selector)
+                s = REL_TEXT[r].lstrip() + c.text()
+            else:
+                s += REL_TEXT[r] + c.text()
         return s
+
+    def is_relative(self):
+        return len(self.comps) > 1 and self.comps[0].is_empty()
 
     def term(self):
         s = "( " + self.comps[0].term()
@@ -139,7 +146,7 @@ IDS = ["i", "j"]
 PLACEHOLDERS = ["p", "q"]
 PLAIN_PSEUDO = ["hover", "focus", "first-child", "root", "host"]
 ELEM_PSEUDO = [("before", True), ("after", True), ("before", False), ("first-line", False), ("marker", True)]
-SEL_PSEUDO = ["not", "is", "where", "matches", "has", "any", "-moz-any", "-webkit-not", "host", "host-context",
+SEL_PSEUDO = ["not", "is", "where", "matches", "has", "has", "has", "any", "-moz-any", "-webkit-not", "host", "host-context",
               "current", "slotted", "nth-child", "foo"]
 OTHER_ARGS = ["a=b", "$x", "a/b", "1/2"]
 
@@ -182,7 +189,8 @@ def gen_pseudo(rng, depth, quote_kind, allow_element=True):
     element = name == "slotted"
     n = rng.choice([1, 1, 2, 3])
     # `:current` compares its argument with `==` (CssString equality is not modelled for it)
-    args = [gen_sel(rng, depth - 1, quote_kind, max_len=2, attrs=(name != "current")) for _ in range(n)]
+    args = [gen_sel(rng, depth - 1, quote_kind, max_len=2, attrs=(name != "current"),
+                    lead=(0.45 if name == "has" else 0.2)) for _ in range(n)]
     return Pseudo(name, ("s", args), element)
 
 
@@ -212,18 +220,22 @@ def gen_comp(rng, depth, quote_kind, attrs=True):
     return c
 
 
-def gen_sel(rng, depth=2, quote_kind="d", max_len=4, attrs=True):
+def gen_sel(rng, depth=2, quote_kind="d", max_len=4, attrs=True, lead=0.0):
     n = rng.choice([1, 1, 1, 2, 2, 3, 4][: 3 + max_len])
     n = min(n, max_len)
     comps = [gen_comp(rng, depth, quote_kind, attrs) for _ in range(n)]
     rels = [rng.choice(["d", "d", "d", ">", ">", "~", "+"]) for _ in range(n - 1)]
+    if rng.random() < lead:
+        # relative selector (`> a`, `+ a b`): a leading combinator hangs on an empty compound
+        comps.insert(0, Comp())
+        rels.insert(0, rng.choice([">", "+", "~"]))
     return Sel(comps, rels)
 
 
-def gen_set(rng, depth=2, max_n=3, quote_kind=None):
+def gen_set(rng, depth=2, max_n=3, quote_kind=None, lead=0.04):
     quote_kind = quote_kind or rng.choice(["d", "s"])
     n = rng.choice([1, 1, 2, 3][: 1 + max_n])
-    return [gen_sel(rng, depth, quote_kind) for _ in range(n)]
+    return [gen_sel(rng, depth, quote_kind, lead=lead) for _ in range(n)]
 
 
 # --- derivations that keep `orig ⊒ derived` according to property C23 -------------------------
@@ -250,6 +262,9 @@ def add_simple(rng, sel, quote_kind="d"):
 def add_ancestor(rng, sel, quote_kind="d"):
     """prefix an ancestor (`p sel`) or a parent (`p > sel`); or, at a descendant combinator,
     put a further ancestor in between (`s c` -> `s x c` / `s > x c`)"""
+    if sel.is_relative():
+        # nothing can stand in front of a leading combinator
+        return add_simple(rng, sel, quote_kind)
     s = sel.copy()
     p = gen_comp(rng, 1, quote_kind)
     mids = [i for i, r in enumerate(s.rels) if r == "d"]
